@@ -491,6 +491,11 @@ def triples(seed, count, maxcells=3, minors=(5, 4, 2), max_edits=2, ops=None):
         if ops is None and u < 0.74:
             yield same_section_reordered_triple(b, rnd)
             continue
+        if ops is None and u < 0.78:
+            t = concurrent_tags_triple(b, rnd)
+            if t is not None:
+                yield t
+                continue
         common = b
         if rnd.random() < 0.3:
             # changes made identically on both sides (agreement), e.g. the same cell inserted by both
@@ -528,6 +533,9 @@ def concurrent_insert_triple(b, rnd):
             lx['metadata'] = nbformat.from_dict({'tags': ['l']})
         tail = [fresh(rnd.choice(pool), 'T')] if rnd.random() < 0.3 else []
         lcells, rcells = lblock + [lx] + tail, rblock + [rx] + [copy.deepcopy(t) for t in tail]
+        if rnd.random() < 0.3:
+            # ... and one side goes on with a cell of its own after the shared part
+            (rcells if rnd.random() < 0.5 else lcells).append(fresh(rnd.choice(pool), 'E'))
     else:
         filler = rnd.choice([md_cell(''), code_cell(''), raw_cell('')])
         lcells = [fresh(filler, 'L'), fresh(x, 'L'), fresh(filler, 'L')]
@@ -538,6 +546,31 @@ def concurrent_insert_triple(b, rnd):
     l['cells'][pos:pos] = lcells
     r['cells'][pos:pos] = rcells
     return copy.deepcopy(b), l, r
+
+
+def concurrent_tags_triple(b, rnd):
+    """Both sides add tags to the same cell (tags must stay unique). Shapes: (0) both insert at the same place -- one side a run of
+    its own tags followed by a tag both add, the other side that shared tag followed by one of its own; (1) both add the same new
+    tag, one before and one after the existing tags; (2) both append different tags."""
+    if not b['cells']:
+        return None
+    i = rnd.randrange(len(b['cells']))
+    base = copy.deepcopy(b)
+    base['cells'][i]['metadata']['tags'] = ['setup']
+    l, r = copy.deepcopy(base), copy.deepcopy(base)
+    shape = rnd.randrange(3)
+    if shape == 0:
+        own = rnd.sample(['hide-input', 'slow', 'draft', 'gpu'], rnd.randint(2, 3))
+        lt, rt = ['setup'] + own + ['parameters'], ['setup', 'parameters', 'injected']
+    elif shape == 1:
+        lt, rt = ['reviewed', 'setup'], ['setup', 'reviewed']
+    else:
+        lt, rt = ['setup', 'slow'], ['setup', 'gpu']
+    if rnd.random() < 0.5:
+        lt, rt = rt, lt
+    l['cells'][i]['metadata']['tags'] = lt
+    r['cells'][i]['metadata']['tags'] = rt
+    return base, l, r
 
 
 def same_section_reordered_triple(b, rnd):
